@@ -183,18 +183,19 @@ PROPS["C11"] = dict(
 )
 
 PROPS["C10"] = dict(
-    units=["cache"],
+    units=["cache", "evict"],
     title="Cache hits return the latest unexpired value of the right key; size bounded",
     level_text="Deductive proof (Verus) on the real bodies of CacheEntry::{new,is_expired}, CacheStore::{new,get,insert,len} (whole-map postconditions over the abstract view of the eviction container: a hit returns the value stored "
                "under that key iff it is not older than the TTL on the explicit clock, an expired entry is removed and misses, insert stores the value under its key stamped now and changes no other key's value) and Cache::call "
                "(lookup and store use the request's own key; a hit makes no inner call and stores nothing; a miss makes exactly one; a success is returned and stored once; an error is returned unchanged and never stored); "
                "CacheStore::new picks the container the policy names with capacity max_size; clones and the shared layer share one store.",
-    level_note="The three eviction containers are an ASSUMED contract (abstract map with a capacity): len <= max_size and 'the victim is the one the policy names' are NOT proved (LRU is an external crate; LFU/FIFO use iterator adapters, "
-               "entry API and VecDeque::retain outside the dialect; Kani on HashMap-based code does not terminate here). 'Latest value' follows from map semantics of the view.",
+    level_note="Unit evict proves the EvictionStore contract for FifoStore and LfuStore on their real bodies (representation invariant: queue/counters in step with the map, size <= capacity; FIFO victim is the first-inserted key; "
+               "LFU victim is a least-frequently-used key, given the ASSUMED contract of find_lfu_key (iterator chain), VecDeque::retain and the entry API). LruStore wraps the external `lru` crate: its contract is assumed. "
+               "The cache unit uses the containers through the trait contract only; that the proved contracts imply the trait contract is by inspection (same clauses).",
     technique="contract-based deductive verification (Verus): abstract-map contracts on the store, effect trace on call",
     design_ref="§6 C10",
     assumptions=["EvictionStore contract for LruStore/LfuStore/FifoStore", "std Mutex critical sections are atomic", "monotone clock", "key extractor is a pure function"],
-    trusted=COMMON_TRUST, excluded=["size bound and victim choice of the three eviction containers (assumed contract, not proved)", "concurrent misses on the same key each call the inner service (consistent with the statement)"],
+    trusted=COMMON_TRUST, excluded=["LruStore (external crate `lru`): size bound and least-recently-used victim assumed, not proved", "LfuStore::find_lfu_key (iterator adapters): assumed to return a least-frequently-used key", "concurrent misses on the same key each call the inner service (consistent with the statement)"],
 )
 
 PROPS["C06"] = dict(
